@@ -258,14 +258,26 @@ func c16Scenario(rng *rand.Rand) *prodScenario {
 		sc.Msgs = append(sc.Msgs, ms)
 	}
 	sc.Submitters = 1
+	bigLast := false
+	if sc.StopInputEarly && sc.FlushBytes == 200 && sc.Codec == sarama.CompressionNone && rng.Intn(3) != 0 {
+		// the last message alone passes the byte trigger: whatever is buffered when it arrives goes out with it
+		// (all on one partition: messages of other partitions may reach the broker worker after it)
+		ms := sc.Msgs[len(sc.Msgs)-1]
+		ms.Value = append([]byte(fmt.Sprintf("%d:", ms.ID)), randBytes(rng, 240+rng.Intn(100))...)
+		for _, o := range sc.Msgs {
+			o.Part = ms.Part
+		}
+		bigLast = true
+	}
 	if sc.StopInputEarly {
 		// which records must reach the cluster once the input stops:
 		//  - no trigger configured, or a frequency configured: all of them;
 		//  - count trigger without frequency: whenever the buffer reaches the count it is flushed whole, so
 		//    fewer than Flush.Messages records may stay behind;
 		//  - only a byte trigger: nothing is demanded (not known to have fired).
+		//  - a byte trigger that the last message passes on its own: all of them;
 		switch {
-		case sc.FlushFreq > 0 || (sc.FlushMessages == 0 && sc.FlushBytes == 0):
+		case sc.FlushFreq > 0 || (sc.FlushMessages == 0 && sc.FlushBytes == 0) || bigLast:
 			sc.ExpectAtCluster = nmsg
 		case sc.FlushMessages > 0:
 			sc.ExpectAtCluster = nmsg - (sc.FlushMessages - 1)
@@ -359,8 +371,10 @@ func oracleC16(res *prodResult, vs *violSet, rec *proto.Rec) bool {
 			switch {
 			case sc.FlushFreq > 0:
 				trig = "frequency"
-			case sc.FlushMessages > 0:
+			case sc.FlushMessages > 0 && sc.ExpectAtCluster < len(sc.Msgs):
 				trig = "messages"
+			case sc.FlushBytes > 0:
+				trig = "bytes"
 			}
 			rec.Obs["flush_clause_judged"]++
 			nontrivial = true
